@@ -22,15 +22,31 @@ VARIABLES tid, res
 vars == <<tid, res>>
 
 Observe(job) ==
-  LET r == RunProg(job.prog, "", job.provided, World0, job.mode)
+  LET r == RunProg(job.prog, "", job.provided, WorldOf(job), job.mode)
   IN [id |-> job.id, status |-> r.status,
       values |-> FilterOut(job.prog, r.vals, job.select),
       err |-> r.err, pause |-> r.pause, steps |-> r.steps,
       raw_keys |-> DOMAIN r.vals, calls |-> r.calls, done |-> r.done, aux |-> Aux(Prop, job)]
 
+\* a top-level runner.map() call: one independent run per input combination, in input order
+ObserveMap(job) ==
+  LET mo == job.map.over
+      prov == job.provided
+      items(j) == PairGet(job.lists, PairGet(prov, mo[j]))
+      lens == [j \in 1..Len(mo) |-> Len(items(j))]
+      zipok == job.map.mode # "zip" \/ ZipOK(lens)
+      combos == IF zipok THEN Combos(job.map.mode, lens) ELSE <<>>
+      bcast == SelectSeq(prov, LAMBDA a : a[1] \notin Names(mo))
+      inputs(c) == bcast \o [j \in 1..Len(mo) |-> <<mo[j], items(j)[combos[c][j]]>>]
+      one(c) == LET r == RunProg(job.prog, "", inputs(c), WorldOf(job), job.mode)
+                IN [status |-> r.status, values |-> FilterOut(job.prog, r.vals, job.select), err |-> r.err,
+                    inputs |-> inputs(c)]
+  IN [id |-> job.id, ismap |-> TRUE, zipok |-> zipok, combos |-> combos,
+      results |-> [c \in 1..Len(combos) |-> one(c)]]
+
 Init == tid \in 1..Len(Jobs) /\ res = "none"
 Next == /\ res = "none"
-        /\ res' = ToJson(Observe(Jobs[tid]))
+        /\ res' = ToJson(IF Jobs[tid].map.over # <<>> THEN ObserveMap(Jobs[tid]) ELSE Observe(Jobs[tid]))
         /\ UNCHANGED tid
 Spec == Init /\ [][Next]_vars
 
@@ -38,6 +54,6 @@ Emit == res # "none" => PrintT(<<"RESULT", res>>)
 
 \* L2 |= L1: every clause of the property-level definition holds on the model's run
 L1Holds == res # "none" =>
-             LET l1 == L1(Prop, Jobs[tid])
+             LET l1 == IF Jobs[tid].map.over # <<>> THEN [none |-> TRUE] ELSE L1(Prop, Jobs[tid])
              IN \A k \in DOMAIN l1 : l1[k] \/ PrintT(<<"L1FAIL", Jobs[tid].id, k>>) = FALSE
 =======================================================================
